@@ -399,12 +399,15 @@ func main() {
 		for _, con := range t.cons {
 			for _, bw := range []bool{false, true} {
 				pb := 1
-				if con && bw && !r.Thorough() {
+				if con && (bw || r.Lite()) && !r.Thorough() {
 					pb = 0 // CON exchanges have ~4x the choice points; preemption bound 1 is left to the thorough tier and to NON
 				}
 				scs = append(scs, scenario(cfg{T: t.name, K: 2, CON: con, BlockWise: bw, Preempt: pb, Env: 1}, mk))
 				scs = append(scs, scenario(cfg{T: t.name, K: 2, CON: con, BlockWise: bw, Collide: "reuse", Preempt: pb, Env: 0}, mk))
 				scs = append(scs, scenario(cfg{T: t.name, K: 2, CON: con, BlockWise: bw, Collide: "race", Preempt: ev.Pick(r, 1, 2), Env: 0}, mk))
+			}
+			if r.Lite() && con {
+				continue
 			}
 			scs = append(scs, scenario(cfg{T: t.name, K: 3, CON: con, TokFamily: true, Preempt: 0, Env: ev.Pick(r, 0, 1)}, mk))
 			scs = append(scs, scenario(cfg{T: t.name, K: 3, CON: con, Preempt: ev.Pick(r, 0, 1), Env: ev.Pick(r, map[bool]int{true: 0, false: 1}[con], 2)}, mk))
